@@ -695,6 +695,7 @@ func checkConsume(c Case, kind int) *kit.Violation {
 		if v := kit.Guard("CSVConsumer.Consume (earlier call on the same consumer)", func() {
 			var earlier [][]string
 			_ = consumer.Consume(strings.NewReader("w\n"), &earlier)
+			_ = consumer.Consume(strings.NewReader("x,\"y\nz\n"), &earlier) // and one that failed (r10)
 		}); v != nil {
 			return v
 		}
@@ -891,6 +892,8 @@ func checkProduce(c Case, kind int) ([]byte, *kit.Violation) {
 	if c.Used {
 		if v := kit.Guard("CSVProducer.Produce (earlier call on the same producer)", func() {
 			_ = producer.Produce(io.Discard, [][]string{{"w"}})
+			// and one that failed, from a source that writes itself: what a call reports is its own outcome (r10)
+			_ = producer.Produce(io.Discard, writerTo{data: "x,\"y\nz\n", chunk: 3})
 		}); v != nil {
 			return nil, v
 		}
